@@ -588,3 +588,10 @@ MUTANTS += [
     dict(prop="C04", name="bam-make-contiguous-drops-last-byte", file=BAM,
          old="        new_starts = np.insert(np.cumsum(lens), 0, 0)\n", new="        new_starts = np.insert(np.cumsum(lens), 0, 0)\n        new_starts[-1] -= 1 if len(lens) > 1 else 0\n"),
 ]
+
+# original defects whose fix commit does not revert cleanly any more (see tools/revert_fix_check.py)
+MUTANTS += [
+    dict(prop="C02", name="info-has-field-mask-no-range-check (symptom of the defect fixed in 5636f56)", file=NTB,
+         old="        in_range = starts + line_len < self._data.size\n",
+         new="        in_range = np.ones(len(starts), dtype=bool)\n"),
+]
